@@ -185,8 +185,8 @@ def run(ctx, args):
             check_docs(ctx, [("replay", case["xml"])], max_sub=50)
         return ctx.finish("replay of " + args.replay)
     quick = ctx.tier == "quick"
-    xmls = [("fixed", x) for x in FIXED] + gen_cases(ctx, 150 if quick else 2500, 50 if quick else 800)
-    check_docs(ctx, xmls, max_sub=3 if quick else 8)
+    xmls = [("fixed", x) for x in FIXED] + gen_cases(ctx, 150 if quick else 1400, 50 if quick else 400)
+    check_docs(ctx, xmls, max_sub=3 if quick else 5)
     return ctx.finish(
         rule="documents: fixed small cases + random conventionally laid out (data-style) documents of depth <= 3 with "
              "elements, comments, PIs, 0-3 attributes, xml:space directives, optional prologue/epilogue, + random "
